@@ -52,9 +52,10 @@ KF2Out(c, sst, want, o) == ObsVal(o) # want /\ ObsValN(o) = want
 (* C03-KF3: a plain inline string goes through type guessing *)
 KF3Trig(c) == c.t = "inlineStr" /\ c.his /\ ~c.isr.rich /\ GuessVal(c.isr.runs[1], c.isr.gb) # TextVal(c.isr.runs[1])
 KF3Out(c, o) == ObsVal(o) = NormVal(GuessVal(c.isr.runs[1], c.isr.gb))
-(* C03-KF4: a rich inline string keeps only its last run (as a plain, type-guessed value) *)
+(* C03-KF4: a rich inline string keeps only its last run, as a plain value (type-guessed while C03-KF3 is open) *)
 KF4Trig(c) == c.t = "inlineStr" /\ c.his /\ c.isr.rich
-KF4Out(c, o) == ObsVal(o) = NormVal(GuessVal(LastOf(c.isr.runs), c.isr.gb))
+KF4Out(c, o) == ObsVal(o) = NormVal(IF KFOn("C03-KF3") THEN GuessVal(LastOf(c.isr.runs), c.isr.gb)   \* guessed like a plain one
+                                      ELSE TextVal(LastOf(c.isr.runs)))
 (* C03-KF5: <v> text of t="str" loses its outer white space *)
 KF5Trig(c) == c.t = "str" /\ c.hv /\ c.vt # c.vx
 KF5Out(c, o) == ObsVal(o) = NormVal(TextVal(c.vt))
